@@ -711,7 +711,7 @@ func (r *runner) startFromYAML(text []byte, what string) error {
 		return err
 	}
 	r.n = n
-	r.modified = n.Modified
+	r.modified = int(n.Modified.Load())
 	kernel.Wait()
 	return nil
 }
@@ -1065,7 +1065,7 @@ func (r *runner) apply(i int, op Op) error {
 			return err
 		}
 		r.glob = mstate{s: *op.S, loc: loc}
-		r.modified = r.n.Modified
+		r.modified = int(r.n.Modified.Load())
 		c.Fault("live_schedule_change")
 		c.Probe("put_ok")
 		return r.readBack(fmt.Sprintf("op %d after PUT", i), "json-roundtrip-changed")
@@ -1124,7 +1124,7 @@ func (r *runner) apply(i int, op Op) error {
 			}
 			return kernel.Violationf(class, "op %d: PUT %s (%s) -> %d %s", i, body, op.Bad.Form, code, resp)
 		}
-		if r.n.Modified != r.modified {
+		if int(r.n.Modified.Load()) != r.modified {
 			return kernel.Violationf("rejected-but-changed", "op %d: rejected PUT %s marked the configuration as modified", i, body)
 		}
 		c.Probe("bad_put_rejected")
